@@ -663,6 +663,8 @@ err_t bign96Sign(octet sig[34], const bign_params* params,
 	// s1 <- (k - s1 - H) mod q
 	zzSubMod(s1, k, s1, ec->order, n);
 	wwFrom(k, hash, 24);
+	if (wwCmp(k, ec->order, n) >= 0)
+		zzSub2(k, ec->order, n);
 	zzSubMod(s1, s1, k, ec->order, n);
 	// выгрузить s1
 	wwTo(sig + 10, 24, s1);
@@ -790,6 +792,8 @@ err_t bign96Sign2(octet sig[34], const bign_params* params,
 	// s1 <- (k - s1 - H) mod q
 	zzSubMod(s1, k, s1, ec->order, n);
 	wwFrom(k, hash, 24);
+	if (wwCmp(k, ec->order, n) >= 0)
+		zzSub2(k, ec->order, n);
 	zzSubMod(s1, s1, k, ec->order, n);
 	// выгрузить s1
 	wwTo(sig + 10, 24, s1);
